@@ -46,15 +46,22 @@ static void *merger(void *a){ (void)a; for (int i=0;i<nops;i++){ unsigned long v
     if(mode==2){ atomic_store(&was_merged[v],1); pthread_mutex_lock(&lm); dispatch_source_merge_data(ds, v); atomic_store(&lastMerged,v); pthread_mutex_unlock(&lm); }
     else dispatch_source_merge_data(ds, v);
     if (rnd()%8==0) sched_yield(); if(rnd()%200==0) usleep(rnd()%300); } return 0; }
+// a thread that keeps re-installing the (same) event handler of the ACTIVE source: each call takes the source's drain lock from
+// outside the invoke path; a merge that lands while it is held must still be delivered
+static atomic_int reinst_stop; static atomic_long reinstalls;
+static void *reinstaller(void *a){ (void)a; while(!atomic_load(&reinst_stop)){ dispatch_source_set_event_handler_f(ds, handler); atomic_fetch_add(&reinstalls,1); if(rnd()%4==0) usleep(rnd()%80); } return 0; }
 static long round_(int m, int t){ mode=m; tq=t; cur_mode=m; atomic_store(&delivered,0); atomic_store(&merged,0); atomic_store(&orDelivered,0); atomic_store(&orMerged,0); atomic_store(&lastDelivered,0); atomic_store(&lastMerged,0); atomic_store(&handler_runs,0);
   if(m==2) memset((void*)was_merged,0,MAXV);
   dispatch_queue_t q = t==0 ? (dispatch_queue_t)dispatch_get_global_queue(0,0) : t==1 ? dispatch_queue_create("c",DISPATCH_QUEUE_CONCURRENT) : dispatch_queue_create("s",NULL);
   ds = dispatch_source_create(m==0?DISPATCH_SOURCE_TYPE_DATA_ADD:m==1?DISPATCH_SOURCE_TYPE_DATA_OR:DISPATCH_SOURCE_TYPE_DATA_REPLACE,0,0,q);
   dispatch_source_set_event_handler_f(ds, handler); dispatch_activate(ds);
   pthread_t th[8]; int nthr=4; for (int i=0;i<nthr;i++) pthread_create(&th[i],0,merger,0);
+  pthread_t ri; int with_ri = (m+t)%2==0; atomic_store(&reinst_stop,0); if(with_ri) pthread_create(&ri,0,reinstaller,0);
   // merges while suspended must be delivered after the resume
   usleep(2000); dispatch_suspend(ds); usleep(3000); dispatch_resume(ds);
   for (int i=0;i<nthr;i++) pthread_join(th[i],0);
+  // the last merges race the last re-installations; then everything is quiet
+  if(with_ri){ usleep(1000); atomic_store(&reinst_stop,1); pthread_join(ri,0); }
   int ok=0; for (int w=0; w<10000; w++){ if (m==0 ? atomic_load(&delivered)==atomic_load(&merged) : m==1 ? atomic_load(&orDelivered)==atomic_load(&orMerged) : atomic_load(&lastDelivered)==atomic_load(&lastMerged)) { ok=1; break; } usleep(1000); }
   if(!ok){ if(m==0) fail("DATA_ADD: values delivered do not sum to the values merged (10 s after the last merge): delivered/merged/target",(long)atomic_load(&delivered),(long)atomic_load(&merged),t);
     else if(m==1) fail("DATA_OR: union delivered differs from the union merged: delivered/merged/target",(long)atomic_load(&orDelivered),(long)atomic_load(&orMerged),t);
@@ -83,9 +90,27 @@ static long chain_round(int m, int t){ mode=m; tq=10+t; cur_mode=m; int K=40; at
   else if(atomic_load(&ch_d)!=atomic_load(&ch_m)) fail("self-retriggering chain: delivered differs from merged (sum / union / last value): delivered/merged/mode",(long)atomic_load(&ch_d),(long)atomic_load(&ch_m),m);
   long runs=atomic_load(&ch_calls);
   dispatch_source_cancel(ds); usleep(2000); dispatch_release(ds); if(t>=3) dispatch_release(q); return runs; }
+// one merge racing one re-installation of the event handler of the active source, then quiet: the merge must be delivered although
+// nothing else ever wakes the source again (the re-installation holds the source's drain lock; the thread is held there at random)
+extern volatile void *_dispatch_verif_queue_state_addr(dispatch_queue_t dq);
+static volatile void *rh_state;
+static void rh_ycb(const volatile void *addr, const char *func, int line){ (void)line; if(addr!=rh_state) return;
+  if(!strcmp(func,"dispatch_source_merge_data")) return; uint64_t r=rnd()%3; if(r==0) usleep(rnd()%60); else if(r==1) sched_yield(); }
+static atomic_long rh_deliv; static void rh_handler(void *c){ (void)c; atomic_fetch_add(&rh_deliv,(long)dispatch_source_get_data(ds)); }
+static void *rh_merger(void *a){ (void)a; if(rnd()%2) usleep(rnd()%40); dispatch_source_merge_data(ds,1); return 0; }
+static long rh_rounds(int rounds){ mode=0; tq=20; cur_mode=0; dispatch_queue_t q=dispatch_queue_create("rh",NULL);
+  ds=dispatch_source_create(DISPATCH_SOURCE_TYPE_DATA_ADD,0,0,q); dispatch_source_set_event_handler_f(ds,rh_handler); dispatch_activate(ds);
+  rh_state=_dispatch_verif_queue_state_addr((dispatch_queue_t)ds); _dispatch_verif_yield_cb=rh_ycb; atomic_store(&rh_deliv,0);
+  for(int r=0;r<rounds && !viol;r++){ pthread_t t; pthread_create(&t,0,rh_merger,0); if(rnd()%2) usleep(rnd()%40);
+    dispatch_source_set_event_handler_f(ds,rh_handler); pthread_join(t,0);
+    int ok=0; for(int w=0; w<1000; w++){ if(atomic_load(&rh_deliv)==r+1){ ok=1; break; } usleep(500); }
+    if(!ok) fail("a merge that raced a re-installation of the event handler of the active source was never delivered (0.5 s, source idle): round/delivered",r,atomic_load(&rh_deliv),0); }
+  _dispatch_verif_yield_cb=0; rh_state=0; dispatch_source_cancel(ds); usleep(2000); dispatch_release(ds); dispatch_release(q); return rounds; }
 int main(int argc, char **argv){ seed = argc>1?strtoull(argv[1],0,0):1; nops = argc>2?atoi(argv[2]):20000;
   evs=calloc(MAXEV,sizeof *evs); was_merged=calloc(MAXV,1); _dispatch_verif_atomic_cb=cb; _dispatch_verif_yield_cb=ycb; long runs=0;
   for(int m=0;m<3 && !viol;m++) for(int t=0;t<5 && !viol;t++) runs+=chain_round(m,t);
+  if(!viol) runs+=rh_rounds(nops>=20000?3000:600);
+  _dispatch_verif_yield_cb=ycb;
   for(int m=0;m<3 && !viol;m++) for(int t=0;t<3 && !viol;t++) runs+=round_(m,t);
   _dispatch_verif_atomic_cb=0; _dispatch_verif_yield_cb=0;
   if(viol) printf("ORACLE VIOL seed=%llu %s\n",(unsigned long long)seed,vmsg); else printf("ORACLE ok items=%ld events=%lu\n",runs,atomic_load(&nev));
